@@ -564,6 +564,38 @@ impl<'a> PayloadGen<'a> {
         }
     }
 
+    /// response key -> the type whose field definition gives the key its STATIC type: the type the selection set is
+    /// written on for direct selections, the type condition for selections inside an applicable inline fragment / spread
+    /// (an implementor may narrow an inherited field, so the runtime type's definition is not the static one)
+    fn owners(&self, static_ty: &str, rt: &str, sels: &[ASel], out: &mut Vec<(String, String)>, depth: usize) {
+        if depth > 16 {
+            return;
+        }
+        for sel in sels {
+            match sel {
+                ASel::Field { alias, name, .. } => {
+                    let key = alias.clone().unwrap_or_else(|| name.clone());
+                    if !out.iter().any(|(k, _)| *k == key) {
+                        out.push((key, static_ty.to_string()));
+                    }
+                }
+                ASel::Inline { on, sub } => {
+                    if self.s.possible_types(on).iter().any(|p| p == rt) {
+                        self.owners(on, rt, sub, out, depth + 1);
+                    }
+                }
+                ASel::Spread { name } => {
+                    if let Some(f) = self.doc.frag(name) {
+                        if self.s.possible_types(&f.on).iter().any(|p| p == rt) {
+                            self.owners(&f.on, rt, &f.sels, out, depth + 1);
+                        }
+                    }
+                }
+                ASel::Typename => {}
+            }
+        }
+    }
+
     pub fn object(&self, rng: &mut Rng, rt: &str, sels: &[ASel], budget: usize, st: &mut PayloadStats) -> Value {
         st.objects += 1;
         let mut fields = Vec::new();
@@ -881,12 +913,16 @@ impl<'a> PayloadGen<'a> {
                 }
             }
         }
+        let mut owners = Vec::new();
+        self.owners(static_ty, rt, sels, &mut owners, 0);
         for (key, fname, sub) in fields {
             if fname == "__typename" {
                 continue;
             }
-            let def = match defs.iter().find(|f| f.name == fname) {
-                Some(d) => d,
+            // the static type of the key: the definition in the type the selection was written on
+            let owner_defs = owners.iter().find(|(k, _)| *k == key).map(|(_, o)| self.s.fields_of(o)).unwrap_or_else(|| defs.clone());
+            let def = match owner_defs.iter().find(|f| f.name == fname).or_else(|| defs.iter().find(|f| f.name == fname)) {
+                Some(d) => d.clone(),
                 None => continue,
             };
             let val = match m.get(&key) {
